@@ -10,6 +10,7 @@ from . import rules_spec as SP
 from . import rules_struct as S
 from . import rules_tile as T
 from . import rules_orient as OR
+from . import rules_more as M
 
 
 class Spec:
@@ -94,6 +95,7 @@ def c01(repo, col):
     D.converter_lattice(repo, col)
     S.optional_zero(repo, col)
     S.rgb_split_idiom(repo, col)
+    M.scaling_composition(repo, col)
     col.floor("E-TILE", 6)
     col.floor("E-AXIS", 22)
     col.floor("E-DTYPE.pair", 25)
@@ -170,6 +172,7 @@ def c04(repo, col):
     SP.routing_bits(repo, col)
     O.shard_index_last(repo, col)
     S.minishard_encode_before_park(repo, col)
+    M.shard_close_sequence(repo, col)
     col.floor("E-SPEC.sharded", 9)
     col.floor("E-ORDER.index-last", 2)
 
@@ -204,6 +207,7 @@ def c05(repo, col):
     S.empty_minishard_guard(repo, col)
     S.minishard_encode_before_park(repo, col)
     O.exit_order(repo, col)
+    M.shard_close_sequence(repo, col)
     col.floor("E-PROTO", 7)
     col.floor("E-ORDER", 7)
     col.floor("E-ATTR.populated", 3)
@@ -236,6 +240,7 @@ def c06(repo, col):
     O.level_driver(repo, col)
     D.averaging_accumulator(repo, col)
     S.downscaler_templates(repo, col)
+    M.pyramid_factor_templates(repo, col)
     A.check_modules(repo, col, ["dyadic_pyramid", "downscaling"])
     col.floor("E-TILE", 15)
     col.floor("E-AXIS", 50)
@@ -394,6 +399,7 @@ def c13(repo, col):
     O.flush_chain(repo, col)
     O.minishard_drain(repo, col)
     O.exit_order(repo, col)
+    M.copy_info_handling(repo, col)
     col.floor("E-TILE", 6)
     col.floor("E-ORDER", 7)
 
@@ -419,6 +425,7 @@ def c14(repo, col):
     SB.accessor_io_errors(repo, col)
     SB.http_content_after_status(repo, col)
     SB.dispatch_agreement(repo, col)
+    M.sharded_http_urls(repo, col)
     S.empty_minishard_guard(repo, col)
     A.check_modules(repo, col, ["http_accessor"])
     col.floor("E-EXC.B", 12)
@@ -469,6 +476,7 @@ def c15(repo, col):
 def c16(repo, col):
     S.unit_literals(repo, col, UNITS_INFO)
     SP.half_voxel(repo, col)
+    M.compact_json(repo, col)
     col.floor("E-SPEC.transform", 4)
     col.floor("E-TABLE.units", 2)
 
@@ -491,6 +499,8 @@ def c17(repo, col):
     B.strict_mesh_bound(repo, col)
     S.unit_literals(repo, col, [("scripts.mesh_to_precomputed",
                                  "mesh_file_to_precomputed", "points", 1e6)])
+    M.vtk_grammar(repo, col)
+    M.mesh_conversion(repo, col)
     col.floor("E-SPEC.mesh", 9)
     col.floor("E-EXC.A", 4)
 
@@ -533,6 +543,7 @@ def c19(repo, col):
     SB.pipeline_composition(repo, col)
     S.exit_status(repo, col)
     SB.overwrite_and_gzip(repo, col)
+    M.new_dataset_defaults(repo, col)
     S.io_pass_through(repo, col)
     scripts = [m.short for m in repo.modules.values()
                if m.short.startswith("scripts.") and m.short != "scripts"]
